@@ -270,4 +270,7 @@ def check_c18_order(s: ASchema, p: Parsed):
         for fk in st.fks:
             if fk.ref != st.qname and fk.ref in pos and pos[fk.ref] > pos[st.qname]:
                 edges.append((st.qname, fk.ref))
+            elif fk.ref not in pos:
+                # the target of the clause is created nowhere in the script: no order can make it executable
+                out.append(('target-missing', f'the inline FOREIGN KEY of {st.qname} references {fk.ref}, which no CREATE TABLE of the script creates'))
     return out, edges
